@@ -13,10 +13,22 @@ equivariance) and the compiled-vs-pure-Python differential complete it.
 Tolerance ("single-precision accuracy" of the statement): the library stores
 every one of these results as float32 and standardises in float32, so a value
 v is compared with |lib - ref| <= TOL * max(1, |v|), TOL = 1e-5.  Calibration
-on the unchanged tree (seeds 0,1,2,7,12345, quick tier): largest deviation
-seen 1.1e-6 (float32 mean/std + float32 accumulation in the histogram MI
-kernels, <= 80 terms of <= 1.2e-7 each), i.e. one decade of head room and
-three decades below the smallest mutant effect we could construct.
+on the unchanged tree (seeds 0,1,2,3,5,7,12345, quick tier sizes): the largest
+deviation seen is 3.6e-7 (lagged cross correlation: float32 mean / std of
+the windows), 2.7e-7 for the C histogram MI kernels (float32 accumulation of
+<= 80 terms), 6e-8 elsewhere (float32 storage of the result).  1e-5 leaves a
+factor ~30 of head room and is three decades below the smallest effect of a
+mutant we could construct (a (n-1)/n normalisation at n = 80 is 1e-2).
+Library-vs-library relations whose two sides perform the same arithmetic
+(permutation, zero-lag symmetry, power-of-two scalings of order statistics
+and neighbour counts) use 1e-6.
+
+Genuine defects found and staged as known findings (known_findings.d/C10.json):
+KF-C10-1 binning MI normalised by T instead of T - tau_max; KF-C10-2
+information_transfer(lag_mode='all') IndexError; KF-C10-3 Spearman ranks
+without tie averaging; KF-C10-4 int8 lag matrix for tau_max >= 128.  Each has
+a clause name of its own; everything else about the same calls is still
+checked (e.g. binning values after removing the known factor).
 """
 import math
 
@@ -34,8 +46,9 @@ RULE = ("cases = (T x N data array, tau_max, estimator parameters, lag mode, "
         "walks) with constant, duplicated, negated, affinely mapped, lagged "
         "and noisy-copy columns inserted by construction, T 3..80, N 2..6 "
         "(also N > T). Non-trivial = at least two columns that are "
-        "non-constant and not identical to each other, and tau_max > 0 for "
-        "the lagged estimators; distinct = hash of the whole case.")
+        "non-constant and not identical to each other, and tau_max > 0 in "
+        "the cross-correlation, transfer and relation sub-checks; distinct "
+        "= hash of the whole case.")
 ASSUMPTIONS = [
     "vp/ref/stats.py is the trusted statement of each statistic",
     "single precision = 1e-5 * max(1,|v|) (float32 storage and float32 "
@@ -150,11 +163,6 @@ def data_arrays(draw, t_min=3, t_max=80, n_min=2, n_max=6,
             elif op == "mix":
                 X[:, k] = X[:, src] + B[:, k] / 2.0
     return [[float(v) for v in row] for row in X]
-
-
-def tau_for(draw, T, cap=6, keep=2):
-    """tau_max with at least ``keep`` samples left in the window."""
-    return draw(st.integers(0, max(0, min(cap, T - keep))))
 
 
 # ================================================================ utilities
@@ -292,8 +300,11 @@ def oracle_cc(case, rec):
         d = np.array([allv[k, k, 0] for k in range(N)])
         dref = np.array([ref0[k, k, 0] for k in range(N)])
         rec.close(d, dref, "cc_all_diagonal_one", rtol=TOL)
+    # (a ValueError for lags that do not fit the int8 lag matrix would be a
+    # fair, explicit rejection)
     ok2, res = rec.call("cc_max_call", ca.cross_correlation, tau_max=tm,
-                        lag_mode="max")
+                        lag_mode="max",
+                        allowed=(ValueError,) if tm > 127 else ())
     if not ok2:
         return
     S, L = np.asarray(res[0]), np.asarray(res[1])
@@ -539,8 +550,7 @@ def mi_cases(draw):
 def knn_reference(X, what, tm, past, k, seed):
     """Lag functions of the kNN estimator; raises ValueError where the
     library documents one (NaNs after standardising a constant window)."""
-    T, N = X.shape
-    L = tm + (past if what != "mi" else 0)
+    N = X.shape[1]
     out = np.zeros((N, N, tm + 1))
     pbt.seed_library_rngs(seed, seed)
     for i in range(N):
@@ -558,8 +568,6 @@ def knn_reference(X, what, tm, past, k, seed):
                 a += 1e-10 * np.random.rand(*a.shape)
                 kxz, kyz, kz = R.knn_counts(a, 1, 1, k)
                 out[i, j, tau] = R.fp_cmi(k, kxz, kyz, kz)
-    if what != "mi":
-        assert L == tm + past
     return out
 
 
@@ -1003,6 +1011,10 @@ def oracle_climate(case, rec):
         b = np.array(case["shift"], dtype=np.float64)
         if kind == "mi":
             a, b = np.abs(a), b * 0
+        if kind == "spearman":
+            # a shift changes the rounding of the phase means and can make
+            # or break ties between anomalies; scalings by 2^k are exact
+            b = b * 0
         X2 = (X * a + b)[:, p]
         case2 = dict(case, x=X2.tolist(),
                      lat=[case["lat"][k] for k in p],
@@ -1071,20 +1083,20 @@ def climate_cases(draw):
 
 def oracle_surr(case, rec):
     from pyunicorn.timeseries import Surrogates
-    O = np.array(case["orig"], dtype=np.float64)          # [index, time]
-    N, T = O.shape
+    Og = np.array(case["orig"], dtype=np.float64)         # [index, time]
+    N, T = Og.shape
     if case.get("perm") is not None:
-        S = np.array([O[k][np.array(case["perm"][k]) % T]
+        S = np.array([Og[k][np.array(case["perm"][k]) % T]
                       for k in range(N)])
         rec.label("surrogate=shuffle_with_repeats")
     else:
         S = np.array(case["surr"], dtype=np.float64)
         rec.label("surrogate=independent")
     nb = int(case["n_bins"])
-    if nontrivial_data(O.T):
+    if nontrivial_data(Og.T):
         rec.nontrivial(True)
     # the docstrings assume normalised input
-    On = ref_normalize(O.T).T.copy()
+    On = ref_normalize(Og.T).T.copy()
     Sn = ref_normalize(S.T).T.copy()
     off = ~np.eye(N, dtype=bool)
     ok, P = rec.call("test_pearson_call", Surrogates.test_pearson_correlation,
@@ -1099,7 +1111,7 @@ def oracle_surr(case, rec):
         close_masked(rec, P, ref0, "test_pearson_offdiagonal", mask=off)
         rec.check(np.all(np.abs(np.asarray(P)) <= 1 + TOL),
                   "test_pearson_bounded")
-    for tag, (A_, B_) in (("normalized", (On, Sn)), ("raw", (O, S))):
+    for tag, (A_, B_) in (("normalized", (On, Sn)), ("raw", (Og, S))):
         zero_range = min(A_.min(), B_.min()) == max(A_.max(), B_.max())
         if zero_range:
             # all samples equal: equal-width binning over the common range
@@ -1132,9 +1144,9 @@ def oracle_surr(case, rec):
 def surr_cases(draw):
     x = draw(data_arrays(t_min=4, t_max=60, kinds=("fine", "fine", "fine",
                                                    "walk", "small")))
-    O = np.array(x).T
-    N, T = O.shape
-    case = {"orig": O.tolist(), "n_bins": draw(st.sampled_from(
+    Og = np.array(x).T
+    N, T = Og.shape
+    case = {"orig": Og.tolist(), "n_bins": draw(st.sampled_from(
         [2, 3, 8, 32, 32]))}
     if draw(st.booleans()):
         case["perm"] = [draw(st.lists(st.integers(0, T - 1), min_size=T,
@@ -1254,6 +1266,7 @@ def oracle_pure(case, rec):
         rec.close(pmi, true, "pure_mi_equals_normalised_mi" + sfx, rtol=TOL)
         # differential with the compiled binning estimator
         comp = np.zeros_like(true)
+        comp_raw = np.zeros_like(true)
         good = True
         for tau in range(-tm, tm + 1):
             lag = abs(tau)
@@ -1268,10 +1281,12 @@ def oracle_pure(case, rec):
             cv = np.asarray(cv, dtype=np.float64)
             fac = len(D) / float(len(D) - lag)
             sl = cv[:, :, lag] if tau >= 0 else cv[:, :, lag].T
+            comp_raw[tm + tau] = sl / lb
             comp[tm + tau] = sl * fac / lb
-        if good:
-            # compiled values carry the known (T-tau)/T factor (KF-C10-1),
-            # removed here so that the two implementations are compared
+        if good and not pbt.allclose(pmi, comp_raw, rtol=TOL):
+            # the compiled values carry the known (T-tau)/T factor
+            # (KF-C10-1, reported by the mutual_information sub-check);
+            # with that factor removed the two implementations must agree
             rec.close(pmi, comp, "pure_vs_compiled_mi_rescaled" + sfx,
                       rtol=TOL)
 
